@@ -17,7 +17,7 @@ import concurrent.futures as cf
 import copy
 import json
 import os
-import subprocess
+import re
 import vlib
 from vlib import Ctx, run_tlc, build_harness, parse_jsonl, SPEC
 
@@ -37,6 +37,24 @@ SENS = [  # (cfg, deviation, kind of violation expected, name)
     ("MC_Shutdown_dev_StopDropsQueue.cfg", "StopDropsQueue", "invariant", "Inv_DispatchedKept"),
 ]
 WITNESS = ["Never_ClientBeforeWake", "Never_WakeDuringDispatch", "Never_ReturnedSaturated", "Never_AcceptAfterCancel"]
+
+
+def tlc_job(*a, **k):
+    """run_tlc, but a liveness counterexample (TLC exit code 13, 'Temporal property X was violated', a format
+    vlib.run_tlc does not recognise and reports as a tool error) is returned as a temporal violation."""
+    try:
+        return run_tlc(*a, **k)
+    except vlib.ToolError as e:
+        msg = str(e)
+        if "rc=13" not in msg:
+            raise
+        r = vlib.TLCResult()
+        r.rc, r.violation, r.out = 13, "temporal", msg
+        m = re.search(r"(\d+) states generated, (\d+) distinct states found", msg)
+        if m:
+            r.generated, r.distinct = int(m.group(1)), int(m.group(2))
+        r.trace = msg.splitlines()[-60:]
+        return r
 
 
 def prep(scens):
@@ -134,10 +152,10 @@ def run(tier, replay):
     mc_cfgs = [("MC_Shutdown_thorough.cfg" if thorough else "MC_Shutdown_quick.cfg", "accept loop/run thread fair only", 4)]
     mc_cfgs.append(("MC_Shutdown_allfair_thorough.cfg" if thorough else "MC_Shutdown_allfair.cfg", "every process fair: drain after return", 2))
     for cfg, note, w in mc_cfgs:
-        jobs[("mc", cfg, note)] = pool.submit(run_tlc, "MC_Shutdown.tla", cfg, D, workers=w, coverage=True,
+        jobs[("mc", cfg, note)] = pool.submit(tlc_job, "MC_Shutdown.tla", cfg, D, workers=w, coverage=True,
                                               timeout=2400, work_id="c20mc", heap="8g" if thorough else "4g")
     for cfg, dev, kind, name in SENS:
-        jobs[("sens", cfg, dev)] = pool.submit(run_tlc, "MC_Shutdown.tla", cfg, D, workers=1, timeout=600, work_id="c20s")
+        jobs[("sens", cfg, dev)] = pool.submit(tlc_job, "MC_Shutdown.tla", cfg, D, workers=1, timeout=900, work_id="c20s")
     for w in WITNESS:
         jobs[("wit", "MC_Shutdown_wit_%s.cfg" % w, w)] = pool.submit(run_tlc, "MC_Shutdown.tla", "MC_Shutdown_wit_%s.cfg" % w, D,
                                                                        workers=1, timeout=600, work_id="c20w")
@@ -146,7 +164,7 @@ def run(tier, replay):
     nsim = 400 if thorough else 60
     beh, seen = [], set()
     for cfg, sd in (("Gen_Shutdown.cfg", seed), ("Gen_Shutdown_late.cfg", seed + 1000)):
-        g = run_tlc("MC_Shutdown.tla", cfg, D, workers=1, simulate=nsim, depth=80, seed_val=sd, work_id="c20g", timeout=600)
+        g = run_tlc("Gen_Shutdown.tla", cfg, D, workers=1, simulate=nsim, depth=80, seed_val=sd, work_id="c20g", timeout=600)
         if g.violation:
             raise vlib.ToolError("behaviour generation failed: " + g.out[-1500:])
         ctx.add_tlc("behaviour generation (-simulate) %s" % cfg, g)
